@@ -1248,7 +1248,7 @@ AddHeadMulti(const Queue<ItemType> & queue, uint32 startIndex, uint32 numNewItem
    const uint32 hisSize = queue.GetNumItems();
    numNewItems = muscleMin(numNewItems, (startIndex < hisSize) ? (hisSize-startIndex) : 0);
 
-   if ((&queue == this)&&(numNewItems > GetNumUnusedItemSlots()))
+   if ((&queue == this)&&(numNewItems > 0))
    {
       // Avoid re-entrancy problems by making a partial copy of myself to prepend back into myself
       Queue<ItemType> temp;
